@@ -17,6 +17,8 @@ From SCC Require Import Model.RunC01.
 From SCC Require Import Model.RunRobust.
 From SCC Require Import Model.RunWtStages.
 From SCC Require Import Model.RunSizes.
+From SCC Require Import Model.RunHeapA64.
+From SCC Require Import Model.RunHeapRV.
 Open Scope string_scope.
 
 Definition dispatch (cmd : string) (input : string) : string :=
@@ -50,5 +52,9 @@ Definition dispatch (cmd : string) (input : string) : string :=
   | "fmt" => run_fmt input
   | "heapops-x86" => run_heapops_x86 input
   | "sizes" => run_sizes input
+  | "c10-a64" => run_c10_a64 input
+  | "show-heap-a64" => run_show_heap_a64 input
+  | "heap-rv" => run_heap_rv input
+  | "c10-rv" => run_c10_rv input
   | _ => "BAD - unknown command " ++ cmd ++ nl
   end.
